@@ -21,6 +21,7 @@ EXPLANATION = (
     "call); cut reports must not go through the process-wide de-duplicating logger; an unsupported opcode "
     "raises HalmosException (stuck -> ERROR). It does not run programs with loops."
     " Also decided: nothing replaces or empties an engine's loop log after its construction."
+    ' Round 4: every SEVM construction in __main__ is bound to a local (an engine built inline has a loop log nobody reads).'
 )
 ASSUMPTIONS = ["logging delivers warn()/error() records", "C05 R05.1: stuck paths exclude PASS"]
 
